@@ -218,6 +218,9 @@ struct NodeSt {
 	connected: [bool; 3],
 	script: Vec<Msg>,
 	released: bool,
+	/// Messages observed so far / needed before the script is released.
+	seen: usize,
+	release_after: usize,
 }
 
 /// Shared state of the three recording handlers of one side.
@@ -230,12 +233,18 @@ pub struct Node {
 
 impl Node {
 	pub fn new(side: u8, node_id: PublicKey, obs: Arc<Mutex<Obs>>, script: Vec<Msg>) -> Arc<Node> {
-		Arc::new(Node { side, node_id, obs, st: Mutex::new(NodeSt { script, ..Default::default() }) })
+		Self::new_released_after(side, node_id, obs, script, 0)
+	}
+	/// `release_after` > 0: the script is queued only once that many messages from the peer were
+	/// handled (a node that answers instead of speaking first).
+	pub fn new_released_after(side: u8, node_id: PublicKey, obs: Arc<Mutex<Obs>>, script: Vec<Msg>, release_after: usize) -> Arc<Node> {
+		Arc::new(Node { side, node_id, obs, st: Mutex::new(NodeSt { script, release_after, ..Default::default() }) })
 	}
 	fn log(&self, ev: Ev) {
 		self.obs.lock().unwrap().events.push((self.side, ev));
 	}
 	fn msg(&self, h: u8, ty: u16, bytes: Vec<u8>) {
+		self.st.lock().unwrap().seen += 1;
 		self.log(Ev::Msg { h, ty, bytes });
 	}
 	fn connected(&self, h: u8, peer: PublicKey) {
@@ -254,7 +263,7 @@ impl Node {
 	/// was processed), the way a ChannelManager generates `channel_reestablish` on connection.
 	fn take(&self, queue: u8) -> Vec<(PublicKey, Msg)> {
 		let mut st = self.st.lock().unwrap();
-		if !(st.connected[0] && st.connected[1] && st.connected[2]) {
+		if !(st.connected[0] && st.connected[1] && st.connected[2]) || st.seen < st.release_after {
 			return Vec::new();
 		}
 		st.released = true;
